@@ -180,6 +180,25 @@ impl ExtMetadataBlock {
         }
     }
 
+    /// Variable length blocks (L8, L9, L10) only exist in a fixed set of lengths
+    pub fn validate_length(&self) -> Result<()> {
+        let (level, length, valid) = match self {
+            ExtMetadataBlock::Level8(b) => (8, b.length, matches!(b.length, 10 | 12 | 13 | 19 | 25)),
+            ExtMetadataBlock::Level9(b) => (9, b.length, matches!(b.length, 1 | 17)),
+            ExtMetadataBlock::Level10(b) => (10, b.length, matches!(b.length, 5 | 21)),
+            _ => return Ok(()),
+        };
+
+        ensure!(
+            valid,
+            "Invalid metadata block length {} for level {}",
+            length,
+            level
+        );
+
+        Ok(())
+    }
+
     pub fn validate_correct_dm_data<T: WithExtMetadataBlocks>(&self) -> Result<()> {
         let level = self.level();
 
@@ -199,6 +218,8 @@ impl ExtMetadataBlock {
         block_length: u64,
     ) -> Result<()> {
         let level = self.level();
+
+        self.validate_length()?;
 
         ensure!(
             block_length == self.length_bytes(),
